@@ -72,6 +72,9 @@ func (r *Report) rule(id, desc string, min int) {
 }
 
 func (r *Report) add(rule, key, pos, status, detail string) {
+	if rule == "" {
+		return
+	}
 	full := rule + "|" + key
 	if r.seen[full+"|"+status] {
 		return
